@@ -303,7 +303,29 @@ pub fn run(cfg: &RunCfg) -> (PropMeta, ShardOut, Map<String, Value>) {
         for i in 0..per {
             let mut r = Rng::for_case(cfg.seed, TAG, shard as u64, i as u64);
             let dcfg = gen::DocCfg { max_objects: 40, max_depth: 1 + r.usize_below(6), generations: true, sparse: true };
-            let d = gen::rdoc(&mut r, &dcfg);
+            let mut d = gen::rdoc(&mut r, &dcfg);
+            // one document in eight is tiny and ends with an object whose bytes look like the end of a PDF file
+            // (an embedded file, a quoted trailer): the real end-of-file structure then shares the last few
+            // hundred bytes of the output with look-alikes of its own keywords
+            if i % 8 == 5 {
+                let tiny = gen::DocCfg { max_objects: 1 + r.usize_below(3), max_depth: 2, generations: false, sparse: false };
+                d = gen::rdoc(&mut r, &tiny);
+                let snippet: &[u8] = *r.pick(&[
+                    &b"startxref\n9\n%%EOF\n"[..],
+                    b"trailer\n<</Size 1/Root 1 0 R>>\nstartxref\n0\n%%EOF",
+                    b"%%EOF",
+                    b"\nxref\n0 1\n0000000000 65535 f \ntrailer\n<< >>\nstartxref\n18\n%%EOF\n",
+                    b"endstream\nendobj\nstartxref\n1\n%%EOF\n",
+                ]);
+                let id = (d.objects.keys().map(|k| k.0).max().unwrap_or(0) + 1, 0);
+                let o = match r.below(3) {
+                    0 => RObj::Stream(vec![], snippet.to_vec()),
+                    1 => RObj::Str(snippet.to_vec(), false),
+                    _ => RObj::Array(vec![RObj::Str(snippet.to_vec(), true), RObj::Str(snippet.to_vec(), false)]),
+                };
+                d.objects.insert(id, o);
+                out.count("documents_ending_with_a_file_tail_lookalike");
+            }
             let nontrivial = !d.objects.is_empty();
             observe(&d, &mut out, &mut seen, &mut adj);
             for xs in [false, true] {
